@@ -343,6 +343,19 @@ func (w *World) typeFacts(v string, t types.Type) []string {
 	return out
 }
 
+// boundFacts: well-formedness guards for a quantified variable. The size limit (no string or slice longer than 2^62)
+// is left out: under a universal quantifier that is used as a hypothesis it would exclude long strings from the
+// statement, e.g. a concatenation whose length cannot be bounded.
+func (w *World) boundFacts(v string, t types.Type) []string {
+	var out []string
+	for _, f := range w.typeFacts(v, t) {
+		if !strings.Contains(f, "4611686018427387904") {
+			out = append(out, f)
+		}
+	}
+	return out
+}
+
 func describePath(p []string) string {
 	return strings.Join(p, " ")
 }
